@@ -164,6 +164,15 @@ def check(ctx):
     pf = base.func("persist")
     ok = bool(find("zip(collections, collection_exprs, expr.__dask_keys__(), strict=True)", pf))
     ctx.ob("ORD.persist-zip", pf, "persist pairs collections with expr.__dask_keys__() positionally (strict zip)", ok)
+    # ---------------- computed values re-enter a graph: they must not be re-interpreted as graph syntax
+    rb = [c for c in calls(pf, "rebuild") if c.args]
+    ctx.count("persist_rebuild_sites", len(rb))
+    ctx.floor("persist_rebuild_sites", 1)
+    for c in rb:
+        a0 = c.args[0]
+        val = a0.value if isinstance(a0, ast.DictComp) else None
+        ok = val is not None and isinstance(val, ast.Call) and call_name(val) == "DataNode"
+        ctx.ob("TYPED-STORE.persist-values", pf, f"rebuild({unparse(a0)}, ...): computed values are stored as data nodes", ok, "" if ok else "a computed value is put into a legacy graph bare: a value shaped like graph syntax (a tuple starting with a callable, a list/str naming a key) is evaluated again when the persisted collection is computed")
     # ---------------- sibling dispatch in delayed
     dl = model.module(DEL)
     du = dl.func("unpack_collections")
